@@ -19,7 +19,7 @@ Matches(r) ==
   /\ \A i \in 1..Len(r.started) :
        \* (the reason a follow-up dial is labelled with is not C11's business: it has no effect on an idle slot)
        LET nw == dials'[Len(dials) + i] IN nw.from = r.started[i].from
-                                            /\ (r.ev = "Dial" => nw.reason = r.started[i].reason)
+                                            /\ (r.ev \in {"Dial", "StartSync"} => nw.reason = r.started[i].reason)
 
 Act(r) ==
   CASE r.ev = "Dial" -> Dial(r.n, r.reason)
@@ -30,6 +30,7 @@ Act(r) ==
     [] r.ev = "EndAcceptor" -> EndAcceptor(r.d, r.res)
     [] r.ev = "HandleConnectDone" -> HandleConnectDone(r.d) /\ dials[r.d].cres = r.res
     [] r.ev = "HandleAcceptDone" -> HandleAcceptDone(r.d) /\ dials[r.d].ares = r.res
+    [] r.ev = "StartSync" -> StartSyncAgain(r.n)
     [] r.ev = "Leave" -> Leave(r.n)
     [] r.ev = "Join" -> Join(r.n, Len(r.started) = 1)
     [] r.ev = "QueueDownload" -> QueueDownload(r.n)
